@@ -571,3 +571,45 @@ func (c *Ctx) SSAFunc(fi *FuncInfo) *ssa.Function {
 	}
 	return c.prog.FuncValue(fi.Obj)
 }
+
+// ---------------------------------------------------------------------------------------
+// positive-control fixture
+
+var fixturePkgs []*packages.Package
+
+// Fixture loads checker/testdata/fixture (stdlib-only module) through the same loader. Rules
+// whose expected count on gotree is zero run on it too and must match there.
+func (c *Ctx) Fixture() []*packages.Package {
+	if fixturePkgs != nil {
+		return fixturePkgs
+	}
+	cfg := &packages.Config{
+		Mode: packages.NeedName | packages.NeedFiles | packages.NeedCompiledGoFiles | packages.NeedImports |
+			packages.NeedDeps | packages.NeedTypes | packages.NeedSyntax | packages.NeedTypesInfo | packages.NeedTypesSizes,
+		Dir:  filepath.Join(verifDir, "checker", "testdata", "fixture"),
+		Env:  goEnv(""),
+		Fset: c.Fset,
+	}
+	pkgs, err := packages.Load(cfg, "./...")
+	if err != nil || len(pkgs) == 0 {
+		c.Undecided("CONTROL", "fixture-load", token.NoPos, fmt.Sprintf("positive-control fixture could not be loaded: %v", err))
+		return nil
+	}
+	for _, p := range pkgs {
+		for _, e := range p.Errors {
+			c.Undecided("CONTROL", "fixture-load", token.NoPos, "positive-control fixture has errors: "+e.Error())
+			return nil
+		}
+	}
+	fixturePkgs = pkgs
+	return pkgs
+}
+
+// Control records the outcome of a positive control: the rule must have matched in the fixture.
+func (c *Ctx) Control(rule string, matched bool, what string) {
+	if matched {
+		c.Trivial("CONTROL", rule, token.NoPos, "positive control matched: "+what)
+	} else {
+		c.Undecided("CONTROL", rule, token.NoPos, "positive control NOT matched ("+what+"): the rule no longer recognises the construct it looks for")
+	}
+}
